@@ -66,6 +66,9 @@ def run(ctx: Ctx) -> None:
     ctx.rule("D12.8", "a bundled setup builder uses every configuration "
              "parameter it is given")
     _setup_parameters(ctx)
+    ctx.rule("D12.9", "a freshly created record is filled with the run's "
+             "result before it is reported")
+    _filled_before_use(ctx)
     ctx.assumptions += [
         "P4: process.get_random() is the run's seeded generator; moptipy "
         "derives per-run seeds from the instance name",
@@ -879,3 +882,71 @@ def _setup_parameters(ctx: Ctx) -> None:
                    "asked for", construct=f"{fi.qualname} parameter {p_}",
                    nontrivial=False)
     ctx.floor("setup_builders", n, 5)
+
+
+
+# ------------------------------------------------------------------ D12.9
+_FILLERS = ("get_copy_of", "copy", "decode", "fill", "sample", "from_",
+            "op0", "op1", "op2", "map_games", "shuffle")
+_REPORTERS = ("describe", "plot", "print", "log", "evaluate", "to_str",
+              "validate", "write", "save", "key_value")
+
+
+def _filled_before_use(ctx: Ctx) -> None:
+    """"Logs true results": what the completion hooks and examples describe
+    or evaluate is the run's best solution.  A local bound to `X.create()`
+    (an empty record) must first be handed to something that fills it
+    (`get_copy_of_best_x(v)`, `decode(x, v)`, `np.copyto(v, ..)`, a store
+    into it); reporting it first reports the empty record."""
+    n = 0
+    for fi in ctx.repo.all_funcs():
+        mn = fi.module.name
+        if not ("experiment" in mn.rsplit(".", 1)[-1]
+                or mn.startswith("examples")):
+            continue
+        created: dict[str, int] = {}
+        for st in ast.walk(fi.node):
+            if isinstance(st, (ast.Assign, ast.AnnAssign)) and getattr(
+                    st, "value", None) is not None:
+                v = st.value
+                while isinstance(v, ast.Call) and isinstance(
+                        v.func, ast.Name) and v.func.id == "cast" and len(
+                        v.args) == 2:
+                    v = v.args[1]
+                tg = st.targets[0] if isinstance(st, ast.Assign) \
+                    else st.target
+                if isinstance(tg, ast.Name) and isinstance(
+                        v, ast.Call) and isinstance(
+                        v.func, ast.Attribute) and v.func.attr == "create" \
+                        and not v.args:
+                    created[tg.id] = st.lineno
+        for name, line in created.items():
+            uses = sorted(
+                (u for u in ast.walk(fi.node) if isinstance(u, ast.Call)
+                 and u.lineno > line and any(
+                     isinstance(a, ast.Name) and a.id == name
+                     for a in list(u.args) + [k.value for k in u.keywords])),
+                key=lambda u: (u.lineno, u.col_offset))
+            stores = [u for u in ast.walk(fi.node) if isinstance(
+                u, ast.Subscript) and isinstance(u.ctx, ast.Store)
+                and isinstance(u.value, ast.Name) and u.value.id == name]
+            if not uses:
+                continue
+            n += 1
+            first = uses[0]
+            fname = ast.unparse(first.func).split(".")[-1]
+            if stores and min(x.lineno for x in stores) <= first.lineno:
+                continue
+            filler = any(fname.startswith(p_) or p_ in fname
+                         for p_ in _FILLERS)
+            reporter = any(fname.startswith(p_) for p_ in _REPORTERS)
+            ctx.ob("D12.9", fi, first, filler or not reporter,
+                   f"{fi.qualname}: `{name}` is filled by {fname}(..) "
+                   "before it is used" if filler else (
+                       f"{fi.qualname}: `{name}` = create() is first handed "
+                       f"to {fname}(..)" + (
+                           ": the empty record is reported, not the result "
+                           "of the run" if reporter else "")),
+                   construct=f"record {name} in {fi.qualname}",
+                   nontrivial=False)
+    ctx.count("created_records", n)
